@@ -18,3 +18,4 @@ CFG = dict(
      assumptions=["testing/synctest virtual time is correct", "the limiter's default real clock is virtual inside the bubble"],
      timeout_quick=600, timeout_thorough=3000)
 CFG["rule"] += ' Added after independently written breaking changes: The pending-events cap is asserted in racy bursts too: once settled, the Adds issued after the most recent signal number fewer than the cap.'
+CFG["rule"] += ' MaxDelay = InitialDelay*mul + extra, so the ratio need not be a whole number. TestCoalescingEchoConsumer: the consumer answers every signal with cap Adds at once while the injected clock never moves; when the bubble is quiescent it must have received one signal per answer (non-trivial: every case).'
